@@ -429,11 +429,17 @@ def exec_history(case):
                 iy = slice(y0, y0 + hh)
                 ix = slice(x0, x0 + ww)
                 src = Image.from_array(arr.copy())
+                erase = bool(op.get("erase")) and bmode != "RGB"
                 with toasty_call("update", what):
                     with pio.update_image(Pos(*p), masked_mode=mode_of(mode), default="masked", **fkw) as basis:
-                        src.update_into_maskable_buffer(basis, iy, ix, iy, ix)
+                        if erase:
+                            # the body of the read-modify-write makes every pixel undefined: the tile must disappear
+                            wa = basis._as_writeable_array()
+                            wa[...] = np.nan if wa.dtype.kind == "f" else 0
+                        else:
+                            src.update_into_maskable_buffer(basis, iy, ix, iy, ix)
                 start = model[p] if p in model else empty_buffer_array(mode, 256, 256)
-                new = model_update(mode, arr, start, iy, ix, iy, ix)
+                new = empty_buffer_array(mode, 256, 256) if erase else model_update(mode, arr, start, iy, ix, iy, ix)
                 if fully_undefined(bmode, new):
                     if p in model:
                         seen_defined_then_masked = True
@@ -474,6 +480,8 @@ def strat_history(draw, tier):
             op["holes"] = [[h[0] * 7, h[1] * 7, h[2] * 7, h[3] * 7, h[4]] for h in op["holes"]]
         if kind == "update":
             op["rect"] = [draw(st.integers(0, 255)), draw(st.integers(0, 255)), draw(st.integers(1, 256)), draw(st.integers(1, 256))]
+            if draw(st.integers(0, 5)) == 0:
+                op["erase"] = True
         if kind == "external":
             op["salt"] = draw(st.integers(0, 30))
         if kind == "read":
